@@ -28,7 +28,7 @@ func runC20(c *core.Ctx) {
 	c.Rule("R1", "Compose/Pipe recursion scheme and application order", 2)
 	c.Rule("R2", "adapters pass bound and supplied arguments in order; results listed in order; true ↦ 1", 22)
 	c.Rule("R3", "Trampoline loop exits and step threading", 1)
-	c.Rule("R4", "CurryDef.Call: flag test, append, single fn call with all arguments and result store inside one callM hold", 1)
+	c.Rule("R4", "CurryDef.Call: flag test, append, single fn call with all arguments and result store inside one callM hold; the lock is released in the same mode on every return path", 1)
 	c.Rule("R5", "first-match: ascending visit, Apply of the matching pattern with the same value returned at once, panic only after the loop; Otherwise constant true; absence-guarded reflect tests; Either delegates", 5)
 	c.Rule("R6", "NewCompData non-nil iff Matches; SumType any-of; ProductType arity and all-of", 3)
 	// ---- R1
@@ -73,6 +73,7 @@ func runC20(c *core.Ctx) {
 		c.Analysed(core.FuncName(f))
 		ok, detail := c20curryCall(p, f)
 		c.Check(ok, "R4", "CurryDef.Call", p.Pos(f.Pos()), detail, detail)
+		lockBalance(c, core.ComputeLocks(p), "R4", funcsOfType(p, p.Fpgo, "CurryDef"))
 	}
 	// ---- R5
 	if f := p.Method(p.Fpgo, "PatternMatching", "MatchFor"); f == nil {
